@@ -117,3 +117,28 @@ Theorem C04_assign_from_view_value :
        at_offs (snd (vget (abs_state s) t)) (vs_offs v)).
 Proof. exact assign_view_value. Qed.
 Print Assumptions C04_assign_from_view_value.
+
+(* The composition with C01, written down: the vsrc record the correspondence driver hands to OCtorView / OAssignView /
+   OViewAssign is `view_vsrc v` for a view v reached by ANY program of view-forming operations (each inside its
+   documented domain) from the root of a zero-based array of sizes sz.  For every such view the record meets the domain
+   the lifecycle theorems above quantify over: all offsets inside the viewed array's block (vsrc_dom), exactly the
+   announced number of them (val_dom), extensions of the view's rank with the view's number of elements, offset k =
+   address of the k-th element of v.elements(), and distinct positions are distinct cells (what a destination of
+   view-to-view assignment needs to be written exactly).  Names qualified: View and Life both define dom_op / nel. *)
+From BM Require Model.View Model.Spec Model.Iter Model.Assign Proofs.ViewProofs2 Proofs.LifeViewCompose.
+Theorem C04_view_sources_compose :
+  forall (sz : list Z) (ops : list BM.Model.View.op) (v : BM.Model.View.view) (as_ : arr),
+    Forall (fun n => 0 <= n) sz -> Forall BM.Proofs.ViewProofs2.c01_op ops ->
+    BM.Model.View.run_ops ops (BM.Model.View.root_view (zb sz)) = Some v ->
+    BM.Model.Life.nel as_ = BM.Model.Spec.prod sz ->
+    let a := BM.Model.Spec.run_spec ops (BM.Model.Spec.root_spec sz) in
+    let s := BM.Proofs.LifeViewCompose.view_vsrc v in
+       vsrc_dom as_ s
+    /\ length (vs_offs s) = Z.to_nat (bnumel (vs_exts s))
+    /\ length (vs_exts s) = length (BM.Model.Spec.asz a)
+    /\ bnumel (vs_exts s) = BM.Model.Spec.prod (BM.Model.Spec.asz a)
+    /\ (forall k, 0 <= k < BM.Model.Iter.er_size v ->
+          nth (Z.to_nat k) (vs_offs s) O = Z.to_nat (BM.Model.Assign.e_addr v k))
+    /\ (Forall (fun n => 0 < n) (BM.Model.Spec.asz a) -> NoDup (vs_offs s)).
+Proof. exact BM.Proofs.LifeViewCompose.view_source_composes_proved. Qed.
+Print Assumptions C04_view_sources_compose.
